@@ -2,6 +2,7 @@
 import itertools, random, re
 from nodegen import *
 import netfam
+from common import hexs
 
 ID = "C17"
 DRIVER = "node"
@@ -38,7 +39,7 @@ OTHER = ["get a", "set a 1", "keys", "watch a", "unwatch-all", "increment c", "r
 
 
 def driver_of(case):
-    return "net" if case[0].startswith("t") else "node"
+    return "net" if case[0].startswith("t") else ("burst" if case[0].startswith("z") else "node")
 
 
 def build(seq, http_takes_sid=True):
@@ -112,6 +113,18 @@ def gen_cases(tier, seed):
         kinds = [rng.choice("tw") for _ in range(8)]
         cases.append(("t%d" % i, ["P"], netfam.to_net(build(seq, http_takes_sid=False), kinds, rng, 0.3)))
     dist["transport"] = nt
+    # bursts of sessions on real threads: T threads open and close K sessions each on the same database while one session stays
+    # (the model runs them one after the other: theorem C17_conn_back_to_previous says the order does not matter)
+    nz = {"quick": 3, "thorough": 12, "search": 2}[tier]
+    for i in range(nz):
+        t, k = rng.choice([(8, 400), (16, 200), (4, 800)])
+        ops = [["conn"], ["conn"], C(0, "auth nun pwd"), C(0, "create-db d1 t1"), C(0, "create-db d2 t2"), C(0, "create-user bob pw"), C(1, "use-db d1 t1")]
+        for _ in range(3):
+            ops.append(["burst", str(t), str(k), hexs(rng.choice(["use-db d1 t1", "use-db d1 t1", "use d1 t1"]))])
+        ops.append(C(1, "use-db d2 t2"))
+        ops.append(["burst", str(t), str(k // 2), hexs("use-db d1 t1")])
+        cases.append(("z%d" % i, ["P", "d1"], ops))
+    dist["bursts_on_real_threads"] = nz
     return cases, dist
 
 
@@ -151,7 +164,27 @@ def net_oracle(case, io, mo):
     return fails
 
 
+def burst_oracle(case, io, mo):
+    fails = []
+    lines = [l for l in io["obs"] if l.startswith("B ")]
+    if len(lines) != len(case[2]):
+        return [("driver-died", "%d of %d steps" % (len(lines), len(case[2])))]
+    selected = 0
+    for i, (op, l) in enumerate(zip(case[2], lines)):
+        if op[0] == "cmd" and op[1] == "1":
+            w = line_of(op).split(" ")
+            if w[0] in ("use-db", "use"):
+                selected = 1 if w[1] == "d1" else 0
+        m = re.match(r"^B conn=(-?\d+) key=(\S+)$", l)
+        if m and op[0] == "burst":
+            if int(m.group(1)) != selected or m.group(2) not in (str(selected),):
+                fails.append(("counter-mismatch", "step %d: after a burst of %s threads x %s sessions the counter of d1 is %s and its key %s; %d session is open on it" % (i, op[1], op[2], m.group(1), m.group(2), selected)))
+    return fails
+
+
 def oracle(case, io, mo):
+    if case[0].startswith("z"):
+        return burst_oracle(case, io, mo)
     if case[0].startswith("t"):
         return net_oracle(case, io, mo)
     fails = []
@@ -198,6 +231,8 @@ def oracle(case, io, mo):
 
 
 def nontrivial(case, io):
+    if case[0].startswith("z"):
+        return True
     seen = set()
     for o in split_obs(io)[len(SETUP):]:
         sec = db_section(o[3], "d1")
